@@ -426,9 +426,20 @@ fn run(ctx: &Ctx) -> Run {
             let len = 200 + rng.usize(if ctx.quick() { 400 } else { 1800 });
             let window = 20 + rng.usize(pool.len() / 2);
             let base = rng.usize(pool.len());
-            let hist: Vec<usize> = (0..len)
-                .map(|_| if rng.chance(0.25) { rng.usize(pool.len()) } else { (base + rng.usize(window)) % pool.len() })
-                .collect();
+            let mut hist: Vec<usize> = Vec::with_capacity(len + 8);
+            while hist.len() < len {
+                let a = if rng.chance(0.25) { rng.usize(pool.len()) } else { (base + rng.usize(window)) % pool.len() };
+                hist.push(a);
+                if rng.chance(0.08) {
+                    // revisit motif: a, one to four other calls (neighbours in the pool are relatives: twins, chains), a again,
+                    // then a or the first of the others once more - what a small most-recently-used store must survive
+                    let k = 1 + rng.usize(4);
+                    let others: Vec<usize> = (0..k).map(|_| if rng.chance(0.5) { (a + 1 + rng.usize(4)) % pool.len() } else { rng.usize(pool.len()) }).collect();
+                    hist.extend(&others);
+                    hist.push(a);
+                    hist.push(if rng.chance(0.5) { a } else { others[0] });
+                }
+            }
             let (p, tb, b) = (pool_arc.clone(), table_arc.clone(), barrier.clone());
             hs.push(std::thread::spawn(move || {
                 silence_panics();
